@@ -250,7 +250,7 @@ pub fn replay_sched(case: &Value, free_small: bool) -> Result<bool, String> {
             let init: RvmSer = serde_json::from_value(case["init"].clone()).map_err(|e| e.to_string())?;
             let init = RVm::from(&init);
             let cost: Cost = serde_json::from_value(case["cost"].clone()).map_err(|e| e.to_string())?;
-            let env = ProgEnv::basic(cost, case["limit"].as_u64().ok_or("limit")?);
+            let env = ProgEnv::named(case["env"].as_str().unwrap_or("basic"), cost, case["limit"].as_u64().ok_or("limit")?);
             let h = Holey { ops: Arc::new(ops.iter().cloned().map(Some).collect()) };
             let seq = run_real_with(&init, h.clone(), &env, false);
             let choices: Vec<u32> = serde_json::from_value(case["schedule"].clone()).map_err(|e| e.to_string())?;
